@@ -261,6 +261,10 @@ def decodeGrid (fmt payload : String) : Except Err (Nat × (Float → Float → 
     match (Grid.gravsoft (u payload) : Except Err (Grid.BaseGrid Float)) with
     | .ok g => .ok (g.bands, fun lon lat m => Grid.atPoint g lon lat m)
     | .error e => .error e
+  else if fmt == "gravsoftb" then
+    match (Grid.gravsoftBytes (hexBytes payload) : Except Err (Grid.BaseGrid Float)) with
+    | .ok g => .ok (g.bands, fun lon lat m => Grid.atPoint g lon lat m)
+    | .error e => .error e
   else
     match Ntv2.decode floatNum (hexBytes payload) with
     | .ok g => .ok (2, fun lon lat m => Ntv2.atPoint g lon lat m)
